@@ -29,6 +29,8 @@ pub enum Op {
     ConnectRefused,
     Up,
     Down,
+    /// the client ends the upload of the oldest HTTP/2 tunnel (half-close); the connection stays
+    HalfCloseUpload,
     /// the client ends the oldest tunnel (H1: closes the connection; H2: resets the stream)
     CloseTunnelByClient,
     /// the peer closes the oldest tunnel's connection, the client then ends its side
@@ -52,6 +54,7 @@ struct Tun {
     sess: usize,
     h2: Option<H2Stream>,
     peer: tokio::net::TcpStream,
+    half_closed: bool,
 }
 
 struct Sess {
@@ -182,15 +185,36 @@ impl Sys {
                 };
                 drop(acc);
                 let _ = p.set_linger(Some(Duration::ZERO));
-                self.tunnels.push(Some(Tun { sess: si, h2: h2stream, peer: p }));
+                self.tunnels.push(Some(Tun { sess: si, h2: h2stream, peer: p, half_closed: false }));
                 settle().await;
                 self.model.tcp += 1;
+                Ok(true)
+            }
+            Op::HalfCloseUpload => {
+                let Some(ti) = (0..self.tunnels.len()).find(|i| self.tunnels[*i].as_ref().map(|t| t.h2.is_some() && !t.half_closed).unwrap_or(false)) else {
+                    return Ok(false);
+                };
+                let t = self.tunnels[ti].as_mut().unwrap();
+                t.h2.as_mut().unwrap().tx.send_data(bytes::Bytes::new(), true).map_err(|e| e.to_string())?;
+                t.half_closed = true;
+                // the peer sees the end of the upload; the connection is still there for the download
+                let mut buf = [0u8; 16];
+                let mut r = Box::pin(t.peer.read(&mut buf));
+                match door::until(&mut r, WALL).await {
+                    Some(Ok(0)) => {}
+                    other => return Err(format!("the peer did not see the end of the upload: {other:?}")),
+                }
+                drop(r);
+                settle().await;
                 Ok(true)
             }
             Op::Up | Op::Down => {
                 let Some(ti) = (0..self.tunnels.len()).find(|i| self.tunnels[*i].is_some()) else {
                     return Ok(false);
                 };
+                if *op == Op::Up && self.tunnels[ti].as_ref().unwrap().half_closed {
+                    return Ok(false);
+                }
                 let t = self.tunnels[ti].as_mut().unwrap();
                 let si = t.sess;
                 let is_h2 = t.h2.is_some();
@@ -531,7 +555,7 @@ async fn run_history(hist: &[Op]) -> Result<HistOutcome, Violation> {
     let shape = (
         sys.model.clone(),
         sys.sessions.iter().map(|s| s.as_ref().map(|s| (matches!(s.client, Client::H2(_)), s.used))).collect::<Vec<_>>(),
-        sys.tunnels.iter().map(|t| t.as_ref().map(|t| t.sess)).collect::<Vec<_>>(),
+        sys.tunnels.iter().map(|t| t.as_ref().map(|t| (t.sess, t.half_closed))).collect::<Vec<_>>(),
         sys.udp.as_ref().map(|u| (u.sess, u.flows)),
     );
     sys.check_export(hist).await?;
@@ -554,7 +578,7 @@ struct M;
 impl HistoryModel for M {
     type Op = Op;
     fn ops(&self) -> Vec<Op> {
-        vec![Op::OpenH1, Op::OpenH2, Op::Connect, Op::ConnectRefused, Op::Up, Op::Down, Op::CloseTunnelByClient, Op::CloseTunnelByPeer, Op::CloseSession, Op::OpenUdp, Op::DgramNewFlow, Op::DgramSameFlow, Op::CloseUdp]
+        vec![Op::OpenH1, Op::OpenH2, Op::Connect, Op::ConnectRefused, Op::Up, Op::Down, Op::HalfCloseUpload, Op::CloseTunnelByClient, Op::CloseTunnelByPeer, Op::CloseSession, Op::OpenUdp, Op::DgramNewFlow, Op::DgramSameFlow, Op::CloseUdp]
     }
     fn run(&self, hist: &[Op]) -> Result<HistOutcome, Violation> {
         let _g = crate::engine::watch::enter("C16:wedged".into(), json!({"history": hist}).to_string());
